@@ -18,6 +18,9 @@ var runners = map[string]func(*Ctx){
 	"C03": runC03,
 	"C06": runC06,
 	"C07": runC07,
+	"C11": runC11,
+	"C12": runC12,
+	"C13": runC13,
 	"C14": runC14,
 	"C15": runC15,
 	"C19": runC19,
